@@ -27,13 +27,15 @@ open RqModel.LinRead (stepNames)
 /-! Instants, node ids and terms are natural numbers (written `Nat` throughout so that
 `omega` sees them). -/
 
-/-- one successful `raft.Apply(cmd, timeout)` on `node`, returning log index `index` -/
-structure ApplyRun where
+/-- one call of `raft.Apply(cmd, timeout)` on `node` that made the node append an entry at
+`index` as leader of `term`. Whether the future then returned nil, an error
+(`ErrLeadershipLost`) or timed out is a SEPARATE fact (`Exec.applyRet`): an entry whose Apply
+failed may still be committed later by a successor. -/
+structure AppendRun where
   node  : Nat
   tInv  : Nat      -- when Apply was called
-  tRet  : Nat      -- when the future returned without error
-  index : Nat       -- `af.Index()`
-  term  : Nat      -- the term in which the node appended the entry
+  index : Nat      -- the index the entry was appended at
+  term  : Nat      -- the term in which the node appended it
 deriving Repr, DecidableEq
 
 /-- what can be said about one execution of the raft layer -/
@@ -46,8 +48,12 @@ structure Exec where
   committedBy : Nat → Nat → Nat → Nat → Prop
   /-- the entry at index `j` was appended by `n` as leader of term `T` -/
   ownEntry    : Nat → Nat → Nat → Prop
-  /-- this `Apply` call happened and succeeded -/
-  applyOk     : ApplyRun → Prop
+  /-- this `Apply` call happened and the node appended the entry -/
+  appended    : AppendRun → Prop
+  /-- that entry is part of the committed log (now or eventually) -/
+  entryCommitted : AppendRun → Prop
+  /-- the Apply future returned nil at instant `t` -/
+  applyRet    : AppendRun → Nat → Prop
   /-- `raft.VerifyLeader()` on `n` was started at `t0` and returned nil at `t1` -/
   verifyOk    : Nat → Nat → Nat → Prop
 
@@ -63,17 +69,19 @@ structure RaftSem (E : Exec) : Prop where
   /-- Leader Completeness (+ leaders only append): an entry committed in an earlier term
   sits below every entry a later leader appends itself -/
   leader_completeness : ∀ i L T tc n T' j, E.committedBy i L T tc → E.ownEntry n T' j → T < T' → i < j
-  /-- State Machine Safety, in the form the protocol needs: an entry appended by an Apply
-  that eventually succeeds lands above every index that was already committed when
-  Apply was called -/
-  append_above_committed : ∀ i L T tc a, E.committedBy i L T tc → E.applyOk a → tc ≤ a.tInv → i < a.index
+  /-- State Machine Safety, in the form the protocol needs: an entry appended by an Apply call
+  that ends up committed (whether or not that call returned success) lies above every
+  index that was already committed when Apply was called -/
+  append_above_committed : ∀ i L T tc a, E.committedBy i L T tc → E.appended a → E.entryCommitted a →
+      tc ≤ a.tInv → i < a.index
   /-- contract of a successful Apply: the node was leader of `a.term` at some instant of the
   call, the entry is its own, and on return it is committed at that node -/
-  apply_contract : ∀ a, E.applyOk a →
-      (∃ t, a.tInv ≤ t ∧ t ≤ a.tRet ∧ E.leaderAt a.node a.term t) ∧
-      E.ownEntry a.node a.term a.index ∧ E.committedBy a.index a.node a.term a.tRet
+  apply_contract : ∀ a t, E.applyRet a t →
+      E.appended a ∧ E.entryCommitted a ∧
+      (∃ t', a.tInv ≤ t' ∧ t' ≤ t ∧ E.leaderAt a.node a.term t') ∧
+      E.ownEntry a.node a.term a.index ∧ E.committedBy a.index a.node a.term t
   /-- log indexes start at 1 -/
-  index_pos : ∀ a, E.applyOk a → 1 ≤ a.index
+  index_pos : ∀ a, E.appended a → 1 ≤ a.index
   /-- a node's commit index only covers what some leader had committed by then -/
   commit_is_committed : ∀ n t, E.commitIdx n t = 0 ∨
       ∃ L T tc, tc ≤ t ∧ E.committedBy (E.commitIdx n t) L T tc
@@ -84,22 +92,27 @@ structure RaftSem (E : Exec) : Prop where
       (∀ i L T tc, E.committedBy i L T tc → tc ≤ t0 → T ≤ T') ∧
       (∃ t, t0 ≤ t ∧ t ≤ t1 ∧ E.leaderAt n T' t)
 
-/-- `Execute`, strong `Query`, `Request` through the log -/
+/-- `Execute`, strong `Query`, `Request` through the log. `ret = none`: Apply returned an
+error or timed out — the client does not learn the outcome. -/
 structure LogOpRun where
   tInv      : Nat          -- the client's invocation
   tReadTerm : Nat          -- `readTerm := s.raft.CurrentTerm()` (Query / Request)
   readTerm  : Nat
-  apply     : ApplyRun
-  tResp     : Nat          -- the client's response
+  apply     : AppendRun
+  ret       : Option Nat   -- when `af.Error()` returned nil
+  tResp     : Nat          -- the client's response (meaningful when `ret ≠ none`)
 deriving Repr, DecidableEq
 
 /-- well-formedness of a log operation against an execution -/
 structure LogOpRun.Ok (E : Exec) (o : LogOpRun) : Prop where
   order1 : o.tInv ≤ o.tReadTerm
   order2 : o.tReadTerm ≤ o.apply.tInv     -- the term is read before Apply (ReadPath facts)
-  order3 : o.apply.tRet ≤ o.tResp         -- acknowledged only after Apply returned
   term_read : o.readTerm = E.term o.apply.node o.tReadTerm
-  applied : E.applyOk o.apply
+  appended : E.appended o.apply
+  /-- it is in the committed log (operations that never commit are not part of a linearization) -/
+  committed : E.entryCommitted o.apply
+  /-- acknowledged only after Apply returned nil -/
+  returned : ∀ t, o.ret = some t → E.applyRet o.apply t ∧ t ≤ o.tResp
 
 /-- the index of a step of `waitForLinearizableRead` in source order -/
 def stepIdx (name : String) : Nat := stepNames.idxOf name
@@ -139,7 +152,8 @@ structure LinReadRun.Ok (E : Exec) (r : LinReadRun) : Prop where
   /-- `currReadTerm == s.strongReadTerm.Load()` -/
   strong_term_eq : r.readTerm = r.strongReadTerm
   /-- the strong read that stored the value ran on this node and had stored it before the load -/
-  stored_ok : ∀ s, r.stored = some s → s.Ok E ∧ s.apply.node = r.node ∧ s.apply.tRet ≤ r.at "s.strongReadTerm.Load"
+  stored_ok : ∀ s, r.stored = some s → s.Ok E ∧ s.apply.node = r.node ∧
+      ∃ t, s.ret = some t ∧ t ≤ r.at "s.strongReadTerm.Load"
   /-- `readIndex := s.raft.CommitIndex()` -/
   read_index : r.readIndex = E.commitIdx r.node (r.at "s.raft.CommitIndex")
   /-- `s.VerifyLeader() == nil` -/
@@ -162,25 +176,41 @@ structure ModelHistory (E : Exec) (h : History) where
   pos    : Nat → Nat
   logRun : Nat → LogOpRun
   linRun : Nat → LinReadRun
+  /-- a log operation need NOT have been acknowledged: a write whose Apply failed or timed out
+  (`ret = none`, the client saw no response) is linearized all the same when it was committed -/
   log_ok : ∀ i ∈ logOps, (logRun i).Ok E ∧ (opAt h i).inv = (logRun i).tInv ∧
-      ∀ t, (opAt h i).resp = some t → t = (logRun i).tResp
+      ∀ t, (opAt h i).resp = some t → (∃ tr, (logRun i).ret = some tr) ∧ t = (logRun i).tResp
   log_sorted : logOps.Pairwise (fun a b => (logRun a).apply.index < (logRun b).apply.index)
   read_ok : ∀ q, ∀ r ∈ reads q, (linRun r).Ok E ∧ (opAt h r).inv = (linRun r).tInv ∧
       (opAt h r).resp = some (linRun r).tResp ∧ pos r = q ∧ q ≤ logOps.length ∧ r ∉ logOps
   /-- `q` is the number of log operations the read's database state contains -/
   read_pos : ∀ q, ∀ r ∈ reads q, ∀ j, j < logOps.length →
       ((logRun (logOps.getD j 0)).apply.index ≤ (linRun r).observed ↔ j < q)
-  /-- the wait of waitForLinearizableRead (LinRead model): what is at or below the read index
-  has been applied -/
-  read_wait : ∀ q, ∀ r ∈ reads q, ∀ a ∈ logOps,
-      (logRun a).apply.index ≤ (linRun r).readIndex → (logRun a).apply.index ≤ (linRun r).observed
+  /-- the node-level run (LinRead model) attached to each linearizable read: the events up to the
+  commit-index read, up to the `fsmWaitIndex` scan, and up to the local database read -/
+  waitEs  : Nat → List LinRead.Ev
+  waitEs1 : Nat → List LinRead.Ev
+  waitEs2 : Nat → List LinRead.Ev
+  /-- that run is the read's: no restart in flight, its commit index is the read index, the wait
+  returned (the subscription fired), and what the FSM had processed is what the read observed.
+  ASSUMED (Log Matching): the client's committed log operations are command entries of this
+  node's log at their indexes (or already compacted away). -/
+  wait_ok : ∀ q, ∀ r ∈ reads q,
+      LinRead.NoReopen (waitEs1 r) ∧ LinRead.NoReopen (waitEs2 r) ∧
+      (LinRead.run {} (waitEs r)).commit = (linRun r).readIndex ∧
+      (LinRead.run (LinRead.run (LinRead.run {} (waitEs r)) (waitEs1 r)) (waitEs2 r)).handed = (linRun r).observed ∧
+      LinRead.reached (LinRead.run (LinRead.run (LinRead.run {} (waitEs r)) (waitEs1 r)) (waitEs2 r))
+        (LinRead.targetAt (LinRead.run (LinRead.run {} (waitEs r)) (waitEs1 r)) (LinRead.run {} (waitEs r)).commit) = true ∧
+      ∀ a ∈ logOps, (logRun a).apply.index ≤ (linRun r).readIndex →
+        (LinRead.run (LinRead.run {} (waitEs r)) (waitEs1 r)).typeAt (logRun a).apply.index = some (some .command) ∨
+        (LinRead.run (LinRead.run {} (waitEs r)) (waitEs1 r)).typeAt (logRun a).apply.index = some none
   reads_nodup : ∀ q, (reads q).Nodup
   /-- inside a block the reads are listed in invocation order -/
   reads_sorted : ∀ q, (reads q).Pairwise (fun x y => (opAt h x).inv < (opAt h y).inv)
   in_range : ∀ x, (x ∈ logOps ∨ ∃ q, x ∈ reads q) → x < h.length
   complete : ∀ i, i < h.length → (opAt h i).resp ≠ none → i ∈ logOps ∨ ∃ q, q ≤ logOps.length ∧ i ∈ reads q
-  /-- the FSM is a deterministic state machine over the log: a read returns what the table
-  holds after the writes of the log prefix it saw -/
+  /-- ASSUMED (deterministic FSM / SQLite as a register): a read returns what the table holds
+  after the writes of the log prefix it saw -/
   read_val : ∀ q, ∀ r ∈ reads q, ∃ k res, (opAt h r).kind = .read k res ∧
       (runWrites h (logOps.take q) []).lookup k = res
   log_val : ∀ j, j < logOps.length → ∀ k res, (opAt h (logOps.getD j 0)).kind = .read k res →
